@@ -3483,22 +3483,57 @@ def sink_returns(fn, known_locals):
 
 
 # =================================================================================================== N5 match statements
-def _match_test(subject, pat):
-    """test expression equivalent to `case pat` for literal / singleton / class-without-arguments / or-patterns; None = unsupported;
-    True = irrefutable"""
+def _match_compile(subject, pat):
+    """(test expression | True, [(captured name, expression)]) equivalent to `case pat` against the pure expression `subject`; None = unsupported.
+    Supported: literals, singletons, wildcard, captures, `P as name`, class patterns with keyword sub-patterns, the empty mapping pattern,
+    or-patterns without captures, sequence patterns of fixed length against a tuple display of the same length."""
+    def isinst(x, cls):
+        return ast.Call(func=ast.Name(id='isinstance', ctx=ast.Load()), args=[copy.deepcopy(x), cls], keywords=[])
+
+    def conj(parts):
+        parts = [p for p in parts if p is not True]
+        if not parts:
+            return True
+        return parts[0] if len(parts) == 1 else ast.BoolOp(op=ast.And(), values=parts)
     if isinstance(pat, ast.MatchValue):
-        return ast.Compare(left=copy.deepcopy(subject), ops=[ast.Eq()], comparators=[pat.value])
+        return ast.Compare(left=copy.deepcopy(subject), ops=[ast.Eq()], comparators=[pat.value]), []
     if isinstance(pat, ast.MatchSingleton):
-        return ast.Compare(left=copy.deepcopy(subject), ops=[ast.Is()], comparators=[ast.Constant(value=pat.value)])
-    if isinstance(pat, ast.MatchAs) and pat.pattern is None and pat.name is None:
-        return True
-    if isinstance(pat, ast.MatchClass) and not pat.patterns and not pat.kwd_patterns:
-        return ast.Call(func=ast.Name(id='isinstance', ctx=ast.Load()), args=[copy.deepcopy(subject), pat.cls], keywords=[])
-    if isinstance(pat, ast.MatchOr):
-        parts = [_match_test(subject, p) for p in pat.patterns]
-        if any(p is None or p is True for p in parts):
+        return ast.Compare(left=copy.deepcopy(subject), ops=[ast.Is()], comparators=[ast.Constant(value=pat.value)]), []
+    if isinstance(pat, ast.MatchAs):
+        if pat.pattern is None:
+            return True, ([] if pat.name is None else [(pat.name, copy.deepcopy(subject))])
+        r = _match_compile(subject, pat.pattern)
+        if r is None:
             return None
-        return ast.BoolOp(op=ast.Or(), values=parts)
+        return r[0], r[1] + ([(pat.name, copy.deepcopy(subject))] if pat.name else [])
+    if isinstance(pat, ast.MatchClass) and not pat.patterns:
+        tests, binds = [isinst(subject, pat.cls)], []
+        for attr, sp in zip(pat.kwd_attrs, pat.kwd_patterns):
+            r = _match_compile(ast.Attribute(value=copy.deepcopy(subject), attr=attr, ctx=ast.Load()), sp)
+            if r is None:
+                return None
+            tests.append(r[0])
+            binds += r[1]
+        return conj(tests), binds
+    if isinstance(pat, ast.MatchMapping) and not pat.keys and pat.rest is None:
+        return isinst(subject, ast.Attribute(value=ast.Attribute(value=ast.Name(id='collections', ctx=ast.Load()), attr='abc', ctx=ast.Load()), attr='Mapping', ctx=ast.Load())), []
+    if isinstance(pat, ast.MatchOr):
+        parts = [_match_compile(subject, p) for p in pat.patterns]
+        if any(p is None or p[0] is True or p[1] for p in parts):
+            return None
+        if all(isinstance(p, ast.MatchClass) and not p.patterns and not p.kwd_patterns for p in pat.patterns):
+            return isinst(subject, ast.Tuple(elts=[p.cls for p in pat.patterns], ctx=ast.Load())), []        # isinstance(x, (A, B))
+        return ast.BoolOp(op=ast.Or(), values=[p[0] for p in parts]), []
+    if isinstance(pat, ast.MatchSequence) and isinstance(subject, ast.Tuple) and len(pat.patterns) == len(subject.elts) \
+            and not any(isinstance(p, ast.MatchStar) for p in pat.patterns):
+        tests, binds = [], []
+        for el, sp in zip(subject.elts, pat.patterns):
+            r = _match_compile(el, sp)
+            if r is None:
+                return None
+            tests.append(r[0])
+            binds += r[1]
+        return conj(tests), binds
     return None
 
 
@@ -3520,19 +3555,30 @@ def match_to_if(trees, log):
                 for c in st.cases:
                     c.body = block(c.body)
                 subj = st.subject
-                if not _atomic(subj) or any(c.guard is not None for c in st.cases):
+                pure_subj = _atomic(subj) or (isinstance(subj, ast.Tuple) and all(_atomic(x) for x in subj.elts))
+                if not pure_subj:
                     out.append(st)
                     continue
-                tests = [_match_test(subj, c.pattern) for c in st.cases]
-                if any(t is None for t in tests):
+                compiled = [_match_compile(subj, c.pattern) for c in st.cases]
+                if any(t is None for t in compiled):
                     out.append(st)
                     continue
                 chain = None
-                for t, c in reversed(list(zip(tests, st.cases))):
-                    if t is True:
-                        chain = list(c.body)
+                for (t, binds), c in reversed(list(zip(compiled, st.cases))):
+                    test = t
+                    if c.guard is not None:
+                        g = _Subst({n: e for n, e in binds}, {}).visit(copy.deepcopy(c.guard))
+                        test = g if test is True else ast.BoolOp(op=ast.And(), values=[test, g])
+                    body = [ast.copy_location(ast.Assign(targets=[ast.Name(id=n, ctx=ast.Store())], value=copy.deepcopy(e), lineno=c.pattern.lineno), c.pattern)
+                            for n, e in binds] + list(c.body)
+                    if test is True:
+                        chain = body
+                    elif chain and _terminates(chain) and not _terminates(body) and not any(isinstance(x, ast.If) for x in chain) and c.guard is None:
+                        # `case P: B   case _: raise`  ->  the guard clause `if not P: raise`, then B
+                        node = ast.copy_location(ast.If(test=ast.UnaryOp(op=ast.Not(), operand=test), body=chain, orelse=[]), st)
+                        chain = [node] + body
                     else:
-                        node = ast.copy_location(ast.If(test=t, body=list(c.body), orelse=chain or []), st)
+                        node = ast.copy_location(ast.If(test=test, body=body, orelse=chain or []), st)
                         chain = [node]
                 for x in chain or []:
                     ast.fix_missing_locations(x)
@@ -3545,6 +3591,74 @@ def match_to_if(trees, log):
         for n in ast.walk(tree):
             if isinstance(n, (ast.FunctionDef, ast.AsyncFunctionDef)):
                 n.body = block(n.body)
+
+
+def refinement_chains(trees, log):
+    """N5b.  `if X and G: B1  elif X: B2  else: B3` (B3 ends in raise / return; X pure)  ->  `if not X: B3`, then `if not G: B2` + B1 when B2
+    ends in raise / return, else `if G: B1 else: B2`.  X is evaluated first and G only when X holds, exactly as in the chain.  This is
+    the guard-clause form of a `match` with a guarded and an unguarded case of the same pattern."""
+    n = 0
+
+    def pure_test(e):
+        return all(isinstance(x, (ast.Call, ast.Name, ast.Attribute, ast.Constant, ast.BoolOp, ast.And, ast.Or, ast.Load, ast.Tuple, ast.Compare, ast.Is, ast.IsNot,
+                                  ast.Eq, ast.NotEq, ast.UnaryOp, ast.Not)) and (not isinstance(x, ast.Call) or _txt(x.func) in ('isinstance', 'type'))
+                   for x in ast.walk(e))
+
+    def rewrite(st):
+        """[statements] replacing the If `st`, or None"""
+        if not (isinstance(st.test, ast.BoolOp) and isinstance(st.test.op, ast.And) and len(st.test.values) >= 2):
+            return None
+        if not (len(st.orelse) == 1 and isinstance(st.orelse[0], ast.If)):
+            return None
+        second = st.orelse[0]
+        if not second.orelse:
+            return None
+        for k in range(len(st.test.values) - 1, 0, -1):
+            xs, gs = st.test.values[:k], st.test.values[k:]
+            X = xs[0] if len(xs) == 1 else ast.BoolOp(op=ast.And(), values=xs)
+            if _txt(X) == _txt(second.test) and pure_test(X):
+                G = gs[0] if len(gs) == 1 else ast.BoolOp(op=ast.And(), values=gs)
+                B1, B2, B3 = st.body, second.body, second.orelse
+                if not _terminates(B3):
+                    # B3 falls through: keep the nesting, `if X: (if G: B1 else: B2) else: B3`
+                    inner = ast.copy_location(ast.If(test=G, body=B1, orelse=B2), st)
+                    return [ast.copy_location(ast.If(test=copy.deepcopy(X), body=[inner], orelse=B3), st)]
+                out = [ast.copy_location(ast.If(test=ast.UnaryOp(op=ast.Not(), operand=copy.deepcopy(X)), body=B3, orelse=[]), st)]
+                if _terminates(B2):
+                    out.append(ast.copy_location(ast.If(test=ast.UnaryOp(op=ast.Not(), operand=G), body=B2, orelse=[]), st))
+                    out.extend(B1)
+                else:
+                    out.append(ast.copy_location(ast.If(test=G, body=B1, orelse=B2), st))
+                return out
+        return None
+
+    def block(stmts):
+        nonlocal n
+        out = []
+        for st in stmts:
+            for field in ('body', 'orelse', 'finalbody'):
+                v = getattr(st, field, None)
+                if isinstance(v, list) and v and isinstance(v[0], ast.stmt) and not isinstance(st, (ast.FunctionDef, ast.AsyncFunctionDef, ast.ClassDef)):
+                    setattr(st, field, block(v))
+            if isinstance(st, ast.Try):
+                for h in st.handlers:
+                    h.body = block(h.body)
+            if isinstance(st, ast.If):
+                r = rewrite(st)
+                if r is not None:
+                    n += 1
+                    for x in r:
+                        ast.fix_missing_locations(x)
+                    out.extend(r)
+                    continue
+            out.append(st)
+        return out
+    for tree in trees.values():
+        for fn in ast.walk(tree):
+            if isinstance(fn, (ast.FunctionDef, ast.AsyncFunctionDef)):
+                fn.body = _simplify_block(block(fn.body))
+    if n:
+        log.append(f'N5b {n} refinement chain(s) `if X and G .. elif X .. else ..` written as guard clauses')
 
 
 # =================================================================================================== N6 no-op statements and conversions
@@ -3751,6 +3865,7 @@ def run(trees, baseline=None):
     log = []
     undo_renames(trees, base, log)
     match_to_if(trees, log)
+    refinement_chains(trees, log)
     instantiate_method_factories(trees, base, log)
     expand_seeded_generators(trees, log)
     inline_bound_method_fields(trees, base, log)
